@@ -17,6 +17,8 @@ func ruleC16(prog *Program, rep *Report) {
 	ruleFreshTarget(prog, rep)
 	ruleFloatBits(prog, rep)
 	ruleAppendRetain(prog, rep, "alt")
+	ruleEmbedParity(prog, rep) // Marshal reads promoted fields through the plan's offsets
+	rulePreRegister(prog, rep) // a type registered lazily makes the result depend on what was recomposed before
 }
 
 // derivedFromName: does e contain (or is it a local assigned from an expression
